@@ -141,6 +141,9 @@ def distance(setmap, p1, p2):
     for pset, count in setmap.items():
         if (p1 in pset) or (p2 in pset):
             total += count
+    # The distance is undefined if neither platform uses any line.
+    if total == 0:
+        return float("nan")
     d = 0
     for pset, count in setmap.items():
         if (p1 in pset) ^ (p2 in pset):
